@@ -5,12 +5,18 @@
 EXTENDS Node, Json, IOUtils, SequencesExt
 VARIABLE hist
 
+\* (transcribed from `lsdrv catalogue`) F*: single-file manifests; D*: directories {a.bin, b.bin}: D1 = {X Y | T},
+\* D2 = {Z | T}, D3 = {Y | T}; T, Z, Y as member files fit in one chunk: that chunk is in the pyramid and is a data chunk
 CatData == [F1 |-> <<"X", "Y">>, F2 |-> <<"X", "Y", "Z">>, F3 |-> <<"X", "Y">>,
-            F4 |-> <<"Z", "Z">>, F5 |-> <<"Y">>, F6 |-> <<"X", "T">>, F7 |-> <<"Z", "T">>]
+            F4 |-> <<"Z", "Z">>, F5 |-> <<"Y">>, F6 |-> <<"X", "T">>, F7 |-> <<"Z", "T">>,
+            D1 |-> <<"X", "Y", "T">>, D2 |-> <<"Z", "T">>, D3 |-> <<"Y", "T">>]
 CatOther == [F1 |-> {"M:F1", "m:F1:0", "m:F1:1", "r:F1"}, F2 |-> {"M:F2", "m:F1:0", "m:F2:0", "r:F2"},
              F3 |-> {"M:F3", "m:F1:0", "m:F1:1", "r:F1"}, F4 |-> {"M:F4", "m:F1:0", "m:F4:0", "r:F4"},
              F5 |-> {"M:F5", "m:F1:0", "m:F5:0"},         F6 |-> {"M:F6", "m:F1:0", "m:F6:0", "r:F6"},
-             F7 |-> {"M:F7", "m:F1:0", "m:F7:0", "r:F7"}]
+             F7 |-> {"M:F7", "m:F1:0", "m:F7:0", "r:F7"},
+             D1 |-> {"M:D1", "m:D1:0", "m:F1:1", "r:F1", "T"}, D2 |-> {"M:D2", "m:D1:0", "m:D2:0", "Z", "T"},
+             D3 |-> {"M:D3", "m:D1:0", "m:F5:0", "Y", "T"}]
+CatSplit == [F1 |-> 2, F2 |-> 3, F3 |-> 2, F4 |-> 2, F5 |-> 1, F6 |-> 2, F7 |-> 2, D1 |-> 2, D2 |-> 1, D3 |-> 1]
 
 FilesA == {"F1", "F2", "F4"}     \* prefix extension, repeated chunk
 FilesB == {"F1", "F3", "F5"}     \* identical content under two names, single-chunk file that is another's data chunk
@@ -18,12 +24,23 @@ FilesC == {"F2", "F5", "F6"}     \* chunk-aligned prefix with a short tail
 FilesD == {"F1", "F2"}
 FilesF == {"F2", "F4"}           \* small universe for complete pin/unpin edge cover (shared chunk Z, repeated in F4)
 FilesE == {"F2", "F4", "F7"}     \* one chunk (Z) in three files, twice in one of them
+FilesG == {"D1", "D2"}           \* two directories sharing a one-chunk member file; one has a two-chunk first member
+FilesH == {"D1", "D2", "D3"}     \* three directories sharing a one-chunk member file
+FilesJ == {"F2"}                 \* one file (cached / partially cached / uploaded in every order)
+FilesI == {"F1", "D1", "F7"}     \* a directory, the single-file manifest of its first member, a file sharing its tail chunk
 DataA == [f \in FilesA |-> CatData[f]]  OtherA == [f \in FilesA |-> CatOther[f]]
 DataB == [f \in FilesB |-> CatData[f]]  OtherB == [f \in FilesB |-> CatOther[f]]
 DataC == [f \in FilesC |-> CatData[f]]  OtherC == [f \in FilesC |-> CatOther[f]]
 DataD == [f \in FilesD |-> CatData[f]]  OtherD == [f \in FilesD |-> CatOther[f]]
 DataF == [f \in FilesF |-> CatData[f]]  OtherF == [f \in FilesF |-> CatOther[f]]
 DataE == [f \in FilesE |-> CatData[f]]  OtherE == [f \in FilesE |-> CatOther[f]]
+DataG == [f \in FilesG |-> CatData[f]]  OtherG == [f \in FilesG |-> CatOther[f]]
+DataH == [f \in FilesH |-> CatData[f]]  OtherH == [f \in FilesH |-> CatOther[f]]
+DataI == [f \in FilesI |-> CatData[f]]  OtherI == [f \in FilesI |-> CatOther[f]]
+DataJ == [f \in FilesJ |-> CatData[f]]  OtherJ == [f \in FilesJ |-> CatOther[f]]  SplitJ == [f \in FilesJ |-> CatSplit[f]]
+SplitA == [f \in FilesA |-> CatSplit[f]]  SplitB == [f \in FilesB |-> CatSplit[f]]  SplitC == [f \in FilesC |-> CatSplit[f]]
+SplitD == [f \in FilesD |-> CatSplit[f]]  SplitE == [f \in FilesE |-> CatSplit[f]]  SplitF == [f \in FilesF |-> CatSplit[f]]
+SplitG == [f \in FilesG |-> CatSplit[f]]  SplitH == [f \in FilesH |-> CatSplit[f]]  SplitI == [f \in FilesI |-> CatSplit[f]]
 GenCaps == {1, 3, 6}
 
 Depth == IF "VERIF_DEPTH" \in DOMAIN IOEnv THEN atoi(IOEnv.VERIF_DEPTH) ELSE 6
@@ -34,7 +51,7 @@ Depth == IF "VERIF_DEPTH" \in DOMAIN IOEnv THEN atoi(IOEnv.VERIF_DEPTH) ELSE 6
 VARIABLES gone, pre   \* pre: abstract state before the last operation (edge cover is per SOURCE state)
 Mode == IF "VERIF_NODEMODE" \in DOMAIN IOEnv THEN IOEnv.VERIF_NODEMODE ELSE "all"
 
-NextDel == \/ \E f \in File : Upload(f, FALSE) \/ Download(f, "all", "none") \/ Delete(f) \/ Read(f)
+NextDel == \/ \E f \in File : Upload(f, FALSE) \/ Download(f, "all", "none") \/ Delete(f) \/ Read(f, "all")
            \/ \E cap \in {1, 6} : Collect(cap)
 NextPin == \/ \E f \in File, p \in BOOLEAN : Upload(f, p)
            \/ \E f \in File : Download(f, "all", "none") \/ Delete(f)
@@ -45,13 +62,57 @@ NextPin2 == \/ \E f \in File : Upload(f, FALSE) \/ Download(f, "all", "none")
 
 \* partial holders: downloads from a source that lacks one data chunk, then local reads / single-chunk reads / retries
 NextPart == \/ \E f \in File, miss \in MissKinds : Download(f, "all", miss)
-            \/ \E f \in File : Download(f, "second", "data0") \/ Read(f) \/ Delete(f)
+            \/ \E f \in File : Download(f, "second", "data0") \/ Read(f, "all") \/ Delete(f)
             \/ \E f \in File, k \in {"inter", "data0"} : TouchChunk(f, k)
+            \/ Restart
+
+\* a root that is cached (completely or from a partial holder) and then uploaded by the user, or the other way round,
+\* and collections: what the upload stored must survive them
+NextPartUp == \/ \E f \in File : Download(f, "all", "none") \/ Download(f, "all", "datalast") \/ Upload(f, FALSE)
+              \/ Collect(1)
+
+\* directories: uploads, member-wise downloads (cached, partially held roots), evictions -- repeated evictions of roots
+\* that share a member file with an uploaded root are what reference-count releases need (`gone` in the VIEW)
+NextDirGc == \/ \E f \in File : Upload(f, FALSE) \/ Download(f, "m2", "none")
+             \/ Collect(1)
+\* the same with fixed roles (small enough for a complete edge cover): one root is only uploaded, the others only cached
+UpFile == "D1"
+NextDirGc1 == \/ Upload(UpFile, FALSE)
+              \/ \E f \in File \ {UpFile} : Download(f, "m2", "none")
+              \/ Collect(1)
+\* directories held partially: one member downloaded (possibly from a partial holder), member reads, single-chunk reads
+\* under the root's context, deletion, restart
+NextDirPart == \/ \E f \in File, sel \in {"m1", "m2"} : Download(f, sel, "none") \/ Read(f, sel)
+               \/ \E f \in File : Download(f, "m1", "data0") \/ Delete(f)
+               \/ \E f \in File, k \in {"inter", "datalast"} : TouchChunk(f, k)
+               \/ Restart
+\* collections racing with the download of another file (puts that commit inside the run), around plain downloads,
+\* uploads and collections
+NextRaceDl == \/ \E f \in File : Download(f, "all", "none") \/ Upload(f, FALSE)
+              \/ \E cap \in Caps, g \in File : CollectRaceDl(cap, g)
+              \/ \E cap \in Caps : Collect(cap)
+\* the core of it (complete edge cover): cached files, then a collection racing with the download of another file
+NextRaceDl1 == \/ \E f \in File : Download(f, "all", "none")
+               \/ \E cap \in {1, 6}, g \in File : CollectRaceDl(cap, g)
+
+\* random walks: every entry point except the racing download (the driver parks the store's own collection worker for
+\* the rest of such a scenario, which a restart cannot follow; the "racedl" mode has no restart)
+NextWalk == \/ \E f \in File, p \in BOOLEAN : Upload(f, p)
+            \/ \E f \in File, sel \in AllSels, miss \in MissKinds : Download(f, sel, miss)
+            \/ \E f \in File, sel \in AllSels : Read(f, sel)
+            \/ \E f \in File : Delete(f)
+            \/ \E f \in File, k \in TouchKinds : TouchChunk(f, k)
+            \/ \E f \in File, via \in {"api", "svc"} : Pin(f, via) \/ Unpin(f, via)
+            \/ \E cap \in Caps : Collect(cap)
+            \/ \E cap \in Caps, f \in File, rop \in RaceOps : CollectRace(cap, f, rop)
             \/ Restart
 
 GInit == Init /\ hist = <<>> /\ gone = {} /\ pre = <<>>
 GNext == /\ Len(hist) < Depth
-         /\ CASE Mode = "del" -> NextDel [] Mode = "pin" -> NextPin [] Mode = "pin2" -> NextPin2 [] Mode = "part" -> NextPart [] OTHER -> Next
+         /\ CASE Mode = "del" -> NextDel [] Mode = "pin" -> NextPin [] Mode = "pin2" -> NextPin2 [] Mode = "part" -> NextPart
+              [] Mode = "dirgc" -> NextDirGc [] Mode = "dirgc1" -> NextDirGc1 [] Mode = "dirpart" -> NextDirPart
+              [] Mode = "racedl" -> NextRaceDl [] Mode = "racedl1" -> NextRaceDl1 [] Mode = "partup" -> NextPartUp
+              [] OTHER -> NextWalk
          /\ hist' = Append(hist, last')
          /\ gone' = gone \cup (known \ known')
          /\ pre' = <<data, up, pin, acct, known, rootpin, gone>>
